@@ -73,8 +73,10 @@ def impl_solve_t(case):
 # --------------------------------------------------------------------------- Coq encoding
 def c_action(a):
     k = a[0]
-    if k == 'set':
+    if k in ('set', 'setlist'):          # 'setlist' = the same store written as a whole-series list assignment (array rebound)
         return '(ASet %d %s)' % (a[1], lib.cfloat(a[2]))
+    if k == 'setlistkeep':               # no value changes: x * 1 + (-0.0) = x for every float, NaN / inf / -0.0 included
+        return '(AAffine %d %s %d %s)' % (a[1], lib.cfloat(lib.fhex(1.0)), a[1], lib.cfloat(lib.fhex(-0.0)))
     if k == 'warnset':
         return '(AWarnSet %d %s)' % (a[1], lib.cfloat(a[2]))
     if k == 'raise':
@@ -913,7 +915,7 @@ def hist_case(rng, errs=('raise', 'raise', 'skip', 'skip', 'ignore', 'replace'))
         scripts[str(p)] = {'passes': passes}
         if rng.random() < 0.05:
             scripts[str(p)]['after' if rng.random() < 0.5 else 'before'] = [['raise', 13]]
-    c['scripts'] = scripts
+    c['scripts'] = with_list_assignments(rng, scripts, 0.15)
     specs = label_specs(st, n)
     calls = []
     labels = list(range(2000, 2000 + n))
@@ -1008,3 +1010,30 @@ def default_probe_scripts(p):
 
 def default_probe_omissions():
     return [[k] for k in OPT_KEYS] + [list(OPT_KEYS), ['min_iter', 'max_iter'], ['failures', 'errors', 'catch_first_error']]
+
+
+def with_list_assignments(rng, scripts, p=0.15, check=(0,)):
+    """With probability p turn the plain stores of one period's script (pre-hook, passes, post-hook) into whole-series list assignments
+    (`model.V_i = [...]`, which rebinds the backing array); either all of them or only those of the pre-hook / the first passes."""
+    if rng.random() >= p or not scripts:
+        return scripts
+    key = rng.choice(sorted(scripts))
+    ps = scripts[key]
+    mode = rng.choice(['all', 'all', 'first-pass', 'before', 'random'])
+
+    def conv(acts, pr):
+        return [['setlist', a[1], a[2]] if a[0] == 'set' and rng.random() < pr else a for a in acts]
+    out = dict(ps)
+    if 'before' in ps:
+        out['before'] = conv(ps['before'], 1.0 if mode in ('all', 'before') else (0.5 if mode == 'random' else 0.0))
+    if 'passes' in ps:
+        out['passes'] = [conv(acts, 1.0 if mode == 'all' or (mode == 'first-pass' and i == 0) else (0.5 if mode == 'random' else 0.0))
+                         for i, acts in enumerate(ps['passes'])]
+    if 'after' in ps:
+        out['after'] = conv(ps['after'], 1.0 if mode == 'all' else 0.0)
+    if mode == 'before' and not any(a[0] == 'setlist' for a in out.get('before', [])):
+        # a pre-hook that loads the starting value of a check variable from a list (the value it already has: semantics unchanged)
+        out['before'] = list(out.get('before', [])) + [['setlistkeep', rng.choice(list(check) or [0])]]
+    scripts = dict(scripts)
+    scripts[key] = out
+    return scripts
